@@ -116,6 +116,9 @@ type vWorld struct {
 	spendableAsked, receivableAsked, balanceAsked bool
 	narrow                                        *SwapData // when set, height answers are pinned to this swap's start height
 	storeRef                                      *vStore
+	interleave                                    func()
+	interleaved                                   bool
+	yieldAt                                       string
 	// narrowOffset is added to the pinned height ("the chain has advanced by this much")
 	narrowOffset uint32
 }
@@ -397,8 +400,21 @@ func (w *vWallet) GetFlatOpeningTXFee() (uint64, error) {
 	w.w.lastFlatFee = f
 	return f, nil
 }
-func (w *vWallet) GetAsset() string   { return w.asset }
-func (w *vWallet) GetNetwork() string { return w.net }
+func (w *vWallet) GetAsset() string   { w.w.yieldPoint("wallet"); return w.asset }
+func (w *vWallet) GetNetwork() string { w.w.yieldPoint("wallet"); return w.net }
+
+// yieldPoint: a call into a collaborator is a point where another goroutine of the daemon (timer, watcher
+// callback, message handler, RPC) may run.  Entries that explore schedules set vWorld.interleave to what
+// that goroutine does and vWorld.yieldAt to the kind of point; it runs at most once.
+func (w *vWorld) yieldPoint(kind string) {
+	if w.interleave == nil || w.interleaved || (w.yieldAt != "" && w.yieldAt != kind) {
+		return
+	}
+	if zzverif.Bool("interleave.at_" + kind) {
+		w.interleaved = true
+		zzverif.Concurrently(w.interleave)
+	}
+}
 func (w *vWallet) GetOnchainBalance() (uint64, error) {
 	if w.w.fault("balance.err") {
 		return 0, errors.New("balance failed")
@@ -443,6 +459,9 @@ func (p *vPolicy) NewSwapsAllowed() bool         { return p.newSwaps }
 type vMessenger struct{ w *vWorld }
 
 func (m *vMessenger) SendMessage(peerId string, message []byte, messageType int) error {
+	// a second goroutine of the daemon (timer, watcher, message handler) may become active while this
+	// send is in flight: the harness decides what it does (vWorld.interleave)
+	m.w.yieldPoint("send")
 	snd := vSend{peer: peerId, msgType: messageType, payload: message}
 	if m.w.storeRef != nil {
 		for _, r := range m.w.storeRef.recs {
